@@ -33,7 +33,14 @@ MANIFEST = {
             "minimum, rediscovery rule, addresses(limit)) and the manager's score-update and dial-selection paths, proved "
             "for every hash-map iteration order and every operation history; plus a seeded correspondence run of the real "
             "TransportManagerHandle / AddressStore / TransportManager code against the model (checker mode for hash-order "
-            "dependent choices) and a specification-level oracle.",
+            "dependent choices) and a specification-level oracle. Coverage round: SocketListener::new::<TcpAddress> (which "
+            "configured addresses are bound, interface expansion of unspecified binds, DNS/malformed rejection, the reported "
+            "listen addresses and DialAddresses), local_dial_address, AddressType::lookup_ip (A/AAAA filtering per "
+            "/dns,/dns4,/dns6), PublicAddresses, the guards of TransportManagerHandle::dial/dial_address and the bulk "
+            "constructors of AddressStore are modelled with the operating system / resolver as inputs, proved "
+            "(listen_address_roundtrip, listener_binds_only_sockets, reported_dialable_and_local, local_dial_sound, "
+            "lookup_respects_dns_type, public_addresses_name_local, handle_dial_guarded) and driven on the real code "
+            "(real sockets on loopback and the machine's interfaces; a scripted UDP name server for the real hickory resolver).",
     "note": "Trusted: Lean kernel; axioms propext/Classical.choice/Quot.sound; the hand-written model and its tie (sampled "
             "differential runs through src/verif/c10.rs); multiaddr text parsing and IpNetwork::is_global outside the model "
             "(attributes are data); PeerState reduced to Disconnected/Opening/Dialing (C05 owns the full machine).",
@@ -45,7 +52,11 @@ RULE = ("seeded operation histories (cfg tcp/maxout/cap; listen; supported/parse
         "ip4/ip6/dns/dns4/dns6 hosts, unspecified/loopback/private/global IPs, missing/foreign/duplicate/trailing /p2p, "
         "ws/wss/quic/udp/other components; addknown with 1-4 addresses; raw insert with tie/extreme scores; list; "
         "scorefail/established/opened/openfail/dialfailed; dial with limited outbound capacity; more distinct addresses "
-        "than the capacity) run on the real code and on the Lean model; non-trivial = at least one address stored and "
+        "than the capacity; bind over ip4/ip6/unspecified/dns/malformed addresses with OS-chosen and shared ports and "
+        "port reuse, localdial for loopback/global/v4/v6 remotes, accept on every reported address; dns scripts with "
+        "A-only/AAAA-only/both/empty/failing names and resolve of /dns,/dns4,/dns6 + socket + malformed addresses; "
+        "hdial/hdialaddr through the handle, pubadd/pubrm, listening, bulk store constructors) run on the real code "
+        "and on the Lean model; non-trivial = at least one address stored and "
         "one refused or evicted; distinct = distinct (ops, observations) transcripts by SHA-256")
 TRUSTED_BASE = ["Lean 4.33 kernel", "axioms: propext, Classical.choice, Quot.sound only",
                 "hand-written models Model/Addr/*.lean tied to handle.rs/address.rs/mod.rs/listener.rs by this correspondence run",
@@ -54,12 +65,20 @@ TRUSTED_BASE = ["Lean 4.33 kernel", "axioms: propext, Classical.choice, Quot.sou
                 "multiaddr crate (text <-> components), ip_network::is_global, std is_unspecified/is_loopback: attributes are "
                 "inputs of the model",
                 "HashMap/HashSet iteration order modelled as an arbitrary permutation",
-                "every /p2p component of a Multiaddr converts to a litep2p PeerId (C18 accepts_eq_reference)"]
+                "every /p2p component of a Multiaddr converts to a litep2p PeerId (C18 accepts_eq_reference)",
+                "listener part: the operating system (socket/bind/listen results, local_addr, NetworkInterface::show) and "
+                "the hickory resolver are inputs of the model, read off the observation (bound=…, ifaces=…, ans=…); the "
+                "adapter's scripted name server (src/verif/c10_listener.rs) and the canonical `@k` port naming; the order "
+                "of the interface enumeration (differs from call to call) is canonicalised by sorting each listener's group"]
 ASSUMPTIONS = ["listen addresses are registered before addresses are learned (remembered_only_if is stated for a fixed "
                "listen set)",
                "dial results reported by the TCP transport concern addresses handed to it by dial(peer) "
                "(DialFailure/OpenFailure carry the dialed address, ConnectionOpened/Established carry ip|dns + tcp of it)",
-               "PeerState beyond Disconnected/Opening/Dialing is outside this property (C05)"]
+               "PeerState beyond Disconnected/Opening/Dialing is outside this property (C05)",
+               "local_addr() of a socket bound to (ip, p) is (ip, p') (p' = p unless p = 0); no interface address is the "
+               "unspecified address (hypothesis of reported_dialable_and_local)",
+               "TransportManager::dial_address (which also stores the dialed address) is property C05's; here only the "
+               "handle's PeerIdMissing guard is driven"]
 KEEP_PREFIX = 1
 
 
